@@ -27,6 +27,14 @@ CHECKS = {
             "TLC exhaustive enumeration of feature-tuple multisets per layout (FrameCells.tla: cells as row sets, index = product of observed values) + replay with a row-set fingerprint metric",
             "the specification defines each by_group / overall entry by the set of row positions it must be evaluated on; TLC checks partition / index-size laws and emits every state for 8 layouts (1..3 sensitive x 0..2 control features); the replay makes the code report, per cell, exactly which rows and which sliced sample-parameter rows its metric saw (y_true_i = 2^i fingerprints), compares index, names, NaN for empty combinations, and three real metrics against the metric called directly on the specified row set",
             "fingerprints exact for <= 26 rows; metric callables are scalar valued as the property states", "5/C01"),
+    "C04": (["Threshold.tla", "Rat.tla"],
+            "TLC exhaustive enumeration of all Valid (group,label,score-level) multisets (Threshold.tla; p_ignore / hull laws) + ThresholdOptimizer.fit on every state x configuration, per-group expected constrained metric from _pmf_predict",
+            "every dataset in which each group has both labels up to the size bound is a TLC state; TLC checks that the rule construction equalises (LawPIgnore) and that the code's hull algorithm (transcribed) equals the algorithm-free hull; each state is fitted for constraints x objectives x flip x grid sizes (plus grid_size=1000) under 4 materialisations (row order, score re-mapping) and the spread of the constrained metric over groups must be <= 1e-9",
+            "score values matter only through order/ties (levels re-mapped monotonically); prefit pass-through estimator supplies the scores", "5/C04"),
+    "C05": (["Threshold.tla", "Rat.tla"],
+            "TLC computes the exact optimum OptSimple/OptEO from an algorithm-independent hull definition for every state x configuration; the objective realised by the fitted ThresholdOptimizer must equal it",
+            "the specification's optimum is the maximum over the grid of the group-frequency-weighted upper hull (pointwise-lowest ROC hull for equalized odds), defined as a max over exact points and straddling pairs, so it is a reference independent of the code's chain/interpolation algorithm (whose transcription TLC proves equivalent); realised objective from _pmf_predict compared at 1e-9; never below the best constant classifier; grid_size=1000 dominates coarser nested grids",
+            "linearity of the per-group metrics in the confusion counts (randomisation spans the convex hull) is stated in the spec, not proved", "5/C05"),
 }
 
 PENDING_REASON = "check under construction in this session (DESIGN.md section 5 describes the planned TLA+ spec and binding); not yet claimed"
